@@ -29,7 +29,7 @@ UNMODELLED = ['text loaders: the sixel decode threads and the font table are ora
               'text loaders: the macro nesting counter of ansi::Parser is the recursion budget of the (regenerated) parser model, MAX_MACRO_NESTING read from the source; the counter discipline of invoke_macro_by_id is pinned by translator/gen_macro.py (see C01)',
               'the PNG / zTXt / zlib / base64 container of .icy files (oracle `icy_chunks`)',
               'Palette::load_palette / export_palette as code: the five text formats are regex pipelines, model = C16 total functions (tied by C16 and by stage C here); the arm of PaletteFormat::Ase (Err / empty vector after the fix of C02-ase-todo) is classified by the translator from its token shape',
-              'time and memory (property C03): extreme declared sizes are classified C02-resource:* and listed as known',
+              'time and memory (property C03): a timeout / memory failure of a loader is the class C02-resource:<loader>; it is a known finding only for the six loaders with a recorded witness (the five that embed the ANSI parser: unclamped cursor row; IcyDraw: declared layer size), a violation for every other loader and extractor',
               'Buffer::from_bytes on a path without extension (`extension().unwrap()` panics): outside the property text, observation only',
               'Layer::from_clipboard_data, Buffer::get_char on a layer whose offset is i32::MIN (overflow after a successful load): not loaders']
 ASSUMPTIONS = ['64-bit usize; files shorter than 2^31 bytes',
@@ -466,6 +466,10 @@ def search(ctx, broken):
         add('c2tdf ' + g.hexs(tdf_bytes(rng)), 'TheDrawFont::from_tdf_bytes', 'tdf')
     for d in tdf_structured():
         add('c2tdf ' + g.hexs(d), 'TheDrawFont::from_tdf_bytes', 'tdf-structured')
+    # the witness of the known class of each loader that embeds the ANSI parser (known_findings.d/C02.json): run on every check,
+    # so every listed finding prints its KNOWN-FINDING line and a repair shows up as a stale entry
+    for ext in ('ans', 'avt', 'pcb', 'msg', 'an1'):
+        add('c2load %s %s' % (ext, g.hexs(b'\x1b[2147483647BA')), LOADER_FN[loader_of(ext)], 'known-witness')
     res = ctx.impl(cases)
     failures = []
     counts = {}
